@@ -1,4 +1,6 @@
 import QV.C15.Lemmas
+import QV.C15.Denote
+import QV.C14.Props
 import QV.C14.Complex
 /-
 C15 — Gate modifiers, daggers and program unitaries compose correctly.
@@ -39,5 +41,165 @@ theorem C15_program_dagger (U : Gate K → Mat K) (n : Nat) (gs : List (Gate K))
       obtain ⟨a, ha, rfl⟩ := hg'
       rw [undagger_dagger]
       exact ⟨hD a ha, sq_adjoint (hU a ha).2⟩
+
+/-! ### Modifiers -/
+
+/-- a gate application as the specification sees it: modifiers (outermost first), name, parameters, fixed qubits -/
+abbrev SpecGate (K : Type) := List Modifier × String × List K × List Nat
+
+/-- the `Gate` value of a `SpecGate` (constant parameters, fixed qubits) -/
+def toGate (sg : SpecGate K) : Gate K := ⟨sg.2.1, sg.2.2.1.map Param.num, sg.2.2.2.map Qubit.fixed, sg.1⟩
+
+theorem fixedQubits_map_fixed (l : List Nat) : fixedQubits (l.map Qubit.fixed) = .ok l := by
+  induction l with
+  | nil => rfl
+  | cons q l ih => simp only [List.map_cons, fixedQubits, ih]; rfl
+
+/-- **Modifiers compose as written, for ALL stacks** (induction on the modifier list; no depth bound).
+If the specification gives `ms name(θs) qs` a meaning `D` on `n ≤ 5` qubits (`denote`: DAGGER = adjoint;
+CONTROLLED = identity where the first remaining qubit is 0, the rest of the stack where it is 1; FORKED =
+the first / second half of the parameters where the first remaining qubit is 0 / 1; base = C14's lifted
+specification matrix) and `qs` are distinct qubits `< n`, then `Gate::to_unitary` returns exactly `D` — no
+error, no panic, modifiers applied outermost-first, each CONTROLLED/FORKED consuming the leading qubit. -/
+theorem C15_toUnitary_eq_denote (ms : List Modifier) (name : String) (θs : List K) (qs : List Nat) (n : Nat)
+    (D : Mat K) (hn : n ≤ 5) (hv : validPlacement qs n = true) (hD : denote n ms name θs qs = some D) :
+    toUnitary (toGate (ms, name, θs, qs)) n = .ok (.ok D) := by
+  obtain ⟨_, hlt, hnd⟩ := (C14_validPlacement_iff qs n).mp hv
+  obtain ⟨m, hm, hr, hex, hDm⟩ := denote_some ms name θs qs D hlt hnd hD
+  have hc : m.c = 2 ^ qs.length := by rw [← (smallDen_square _ _ _ _ hm).2]; exact hr
+  unfold toUnitary toGate
+  simp only
+  rw [fixedQubits_map_fixed, gateMatrix_eq_smallDen ms name θs _ m hm (by simpa using hex)]
+  simp only [Outcome.bind]
+  rw [C14_lift_eq_spec hn hv hr hc, hDm]
+
+/-- **DAGGER conjugate-transposes**: `Gate::dagger` of a gate with meaning `D` has meaning `Dᴴ`, and
+`to_unitary` returns it. -/
+theorem C15_dagger_adjoint (ms : List Modifier) (name : String) (θs : List K) (qs : List Nat) (n : Nat)
+    (D : Mat K) (hn : n ≤ 5) (hv : validPlacement qs n = true) (hD : denote n ms name θs qs = some D) :
+    toUnitary (toGate (ms, name, θs, qs)).dagger n = .ok (.ok (adjoint D)) :=
+  C15_toUnitary_eq_denote (.dagger :: ms) name θs qs n (adjoint D) hn hv (by simp [denote, hD])
+
+/-- **CONTROLLED adds a leading control qubit and applies the gate only when it is 1**: entry `(r, c')` of the
+result is the base operator's entry when bit `c` of `r` is 1, and the identity's when it is 0. -/
+theorem C15_controlled (ms : List Modifier) (name : String) (θs : List K) (c : Nat) (qs : List Nat) (n : Nat)
+    (D : Mat K) (hn : n ≤ 5) (hv : validPlacement (c :: qs) n = true) (hD : denote n ms name θs qs = some D) :
+    toUnitary ((toGate (ms, name, θs, qs)).controlled (.fixed c)) n = .ok (.ok (ctrlSpec c D)) ∧
+    ∀ r c', r < 2 ^ n → c' < 2 ^ n →
+      (ctrlSpec c D).get r c' = if r.testBit c then D.get r c' else (if r = c' then 1 else 0) := by
+  have hdims : D.r = 2 ^ n ∧ D.c = 2 ^ n := by
+    obtain ⟨_, hlt, hnd⟩ := (C14_validPlacement_iff (c :: qs) n).mp hv
+    obtain ⟨m, _, _, _, hDm⟩ := denote_some ms name θs qs D
+      (fun q hq => hlt q (List.mem_cons_of_mem _ hq)) (List.nodup_cons.mp hnd).2 hD
+    rw [hDm]; exact liftSpec_dims _ _ _
+  refine ⟨C15_toUnitary_eq_denote (.controlled :: ms) name θs (c :: qs) n _ hn hv (by simp [denote, hD]), ?_⟩
+  intro r c' hr hc'
+  unfold ctrlSpec
+  rw [get_build (by rw [hdims.1]; exact hr) (by rw [hdims.2]; exact hc')]
+
+/-- **FORKED on a leading qubit selects the first or second half of the parameters.** -/
+theorem C15_forked (ms : List Modifier) (name : String) (θ0 θ1 : List K) (c : Nat) (qs : List Nat) (n : Nat)
+    (D0 D1 : Mat K) (hn : n ≤ 5) (hv : validPlacement (c :: qs) n = true) (hlen : θ1.length = θ0.length)
+    (hD0 : denote n ms name θ0 qs = some D0) (hD1 : denote n ms name θ1 qs = some D1) :
+    (∃ g, (toGate (ms, name, θ0, qs)).forked (.fixed c) (θ1.map Param.num) = some g ∧
+      toUnitary g n = .ok (.ok (forkSpec c D0 D1))) ∧
+    ∀ r c', r < 2 ^ n → c' < 2 ^ n →
+      (forkSpec c D0 D1).get r c' = if r.testBit c then D1.get r c' else D0.get r c' := by
+  have hdims : D0.r = 2 ^ n ∧ D0.c = 2 ^ n := by
+    obtain ⟨_, hlt, hnd⟩ := (C14_validPlacement_iff (c :: qs) n).mp hv
+    obtain ⟨m, _, _, _, hDm⟩ := denote_some ms name θ0 qs D0
+      (fun q hq => hlt q (List.mem_cons_of_mem _ hq)) (List.nodup_cons.mp hnd).2 hD0
+    rw [hDm]; exact liftSpec_dims _ _ _
+  have htake : (θ0 ++ θ1).take ((θ0 ++ θ1).length / 2) = θ0 := by
+    have : (θ0 ++ θ1).length / 2 = θ0.length := by simp [hlen]; omega
+    rw [this, List.take_left']
+    rfl
+  have hdrop : (θ0 ++ θ1).drop ((θ0 ++ θ1).length / 2) = θ1 := by
+    have : (θ0 ++ θ1).length / 2 = θ0.length := by simp [hlen]; omega
+    rw [this, List.drop_left']
+    rfl
+  have heven : ¬ (θ0 ++ θ1).length % 2 ≠ 0 := by simp [hlen]; omega
+  refine ⟨⟨toGate (.forked :: ms, name, θ0 ++ θ1, c :: qs), ?_, ?_⟩, ?_⟩
+  · simp [Gate.forked, toGate, hlen]
+  · exact C15_toUnitary_eq_denote (.forked :: ms) name (θ0 ++ θ1) (c :: qs) n _ hn hv
+      (by simp only [denote, if_neg heven, htake, hdrop, hD0, hD1])
+  · intro r c' hr hc'
+    unfold forkSpec
+    rw [get_build (by rw [hdims.1]; exact hr) (by rw [hdims.2]; exact hc')]
+
+/-! ### Programs, in terms of the specification -/
+
+/-- the matrix `to_unitary` returns (the identity when it does not return one) -/
+def unitaryOf (n : Nat) (g : Gate K) : Mat K :=
+  match toUnitary g n with
+  | .ok (.ok u) => u
+  | _ => eye (2 ^ n)
+
+theorem denote_sq {n : Nat} {ms : List Modifier} {name : String} {θs : List K} {qs : List Nat} {D : Mat K}
+    (hv : validPlacement qs n = true) (hD : denote n ms name θs qs = some D) : Sq n D := by
+  obtain ⟨_, hlt, hnd⟩ := (C14_validPlacement_iff qs n).mp hv
+  obtain ⟨m, _, _, _, hDm⟩ := denote_some ms name θs qs D hlt hnd hD
+  rw [hDm]; exact ⟨wf_build _ _ _, rfl, rfl⟩
+
+theorem program_aux (n : Nat) (hn : n ≤ 5) : ∀ (sgs : List (SpecGate K)) (P : Mat K),
+    (∀ sg ∈ sgs, validPlacement sg.2.2.2 n = true) → denoteProg n sgs = some P →
+    (∀ g ∈ sgs.map toGate, (toUnitary g n = .ok (.ok (unitaryOf n g)) ∧ Sq n (unitaryOf n g)) ∧
+        toUnitary g.dagger n = .ok (.ok (adjoint (unitaryOf n g)))) ∧
+      prodOf (unitaryOf n) n (sgs.map toGate) = P := by
+  intro sgs
+  induction sgs with
+  | nil =>
+    intro P _ h
+    simp only [denoteProg] at h
+    injection h with h
+    exact ⟨by simp, by simp [prodOf, h]⟩
+  | cons sg rest ih =>
+    intro P hv h
+    obtain ⟨ms, name, θs, qs⟩ := sg
+    simp only [denoteProg] at h
+    cases hd : denote n ms name θs qs with
+    | none => rw [hd] at h; simp at h
+    | some D =>
+      cases hr : denoteProg n rest with
+      | none => rw [hd, hr] at h; simp at h
+      | some R =>
+        rw [hd, hr] at h; simp only at h; injection h with h
+        have hv0 : validPlacement qs n = true := hv (ms, name, θs, qs) List.mem_cons_self
+        obtain ⟨ih1, ih2⟩ := ih R (fun sg hsg => hv sg (List.mem_cons_of_mem _ hsg)) hr
+        have e1 := C15_toUnitary_eq_denote ms name θs qs n D hn hv0 hd
+        have e2 := C15_dagger_adjoint ms name θs qs n D hn hv0 hd
+        have hU : unitaryOf n (toGate (ms, name, θs, qs)) = D := by unfold unitaryOf; rw [e1]
+        refine ⟨?_, ?_⟩
+        · intro g hg
+          simp only [List.map_cons, List.mem_cons] at hg
+          rcases hg with rfl | hg
+          · rw [hU]; exact ⟨⟨e1, denote_sq hv0 hd⟩, e2⟩
+          · exact ih1 g hg
+        · simp only [List.map_cons, prodOf, ih2, hU, h]
+
+/-- **Programs against the specification** (any length): for a gate-only program whose gates are well-formed
+applications to distinct qubits `< n ≤ 5`, with `denoteProg` = the product `U_m · … · U_1` of the gates'
+denotations: `Program::to_unitary` returns exactly that product, `Program::dagger` succeeds, and the dagger
+program's `to_unitary` returns its adjoint. -/
+theorem C15_program_eq_denote (n : Nat) (hn : n ≤ 5) (sgs : List (SpecGate K)) (P : Mat K)
+    (hv : ∀ sg ∈ sgs, validPlacement sg.2.2.2 n = true) (hP : denoteProg n sgs = some P) :
+    progUnitary ((sgs.map toGate).map Instr.gate) n = .ok (.ok P) ∧
+    ∃ body, progDagger ((sgs.map toGate).map Instr.gate) = .ok body ∧
+      progUnitary body n = .ok (.ok (adjoint P)) := by
+  obtain ⟨h1, h2⟩ := program_aux n hn sgs P hv hP
+  refine ⟨?_, ?_⟩
+  · rw [C15_program_product (unitaryOf n) n _ (fun g hg => (h1 g hg).1), h2]
+  · have := C15_program_dagger (unitaryOf n) n _ (fun g hg => (h1 g hg).1) (fun g hg => (h1 g hg).2)
+    rw [h2] at this
+    exact this
+
+/-- non-vacuity over `ℂ`: `FORKED CONTROLLED RX(a, b) 2 1 0` on 3 qubits has a denotation, so the theorems
+above apply to it (this is the stack the unrepaired code got wrong). -/
+example (a b : ℂ) : ∃ D, denote 3 [.forked, .controlled] "RX" [a, b] [2, 1, 0] = some D ∧
+    toUnitary (toGate ([.forked, .controlled], "RX", [a, b], [2, 1, 0])) 3 = .ok (.ok D) := by
+  have h : (denote 3 [.forked, .controlled] "RX" [a, b] [2, 1, 0]).isSome = true := by
+    simp [denote, specMatrix]
+  obtain ⟨D, hD⟩ := Option.isSome_iff_exists.mp h
+  exact ⟨D, hD, C15_toUnitary_eq_denote _ _ _ _ 3 D (by norm_num) (by decide) hD⟩
 
 end QV.C15
